@@ -210,10 +210,17 @@ def PyVal.WF : PyVal → Bool
   | .pyStr s | .npStr s => s.getLast? != some (Char.ofNat 0)
   | _ => true
 
-/-- well-formed input: text as above; an array has as many elements as the shape says, each
-fitting the dtype -/
+/-- a numpy integer handed in *as a bare scalar* must fit int64: `np.array(np.uint64(2**64-1),
+dtype=int64)` (0-d, what `extend_values(scalar)` builds) wraps around silently, whereas the same
+value inside a list raises OverflowError (modelled) — the bare scalar is outside the model -/
+def PyVal.scalarOk : PyVal → Bool
+  | .npInt i => decide (int64Min ≤ i) && decide (i ≤ int64Max)
+  | _ => true
+
+/-- well-formed input: text as above; bare numpy integers as above; an array has as many elements
+as the shape says, each fitting the dtype -/
 def Input.WF : Input → Bool
-  | .scalar v => v.WF
+  | .scalar v => v.WF && v.scalarOk
   | .list vs => vs.all PyVal.WF
   | .ndarray dt shape data =>
     data.length == shapeSize shape &&
